@@ -112,6 +112,15 @@ def _match(pa, pb):
   return out
 
 
+def _judge(rec, name, pname, got, ref, allow, noise, ctx):
+  """cmp.judge with the worst-ratio keyed by numeric class and the violation signature refined by pair type."""
+  n0 = len(rec.violations)
+  v = cmp.judge(rec, name, got, ref, allow, noise, ctx=ctx)
+  if v == "viol" and len(rec.violations) > n0:
+    rec.violations[-1]["sig"] = name.split("[")[0] + ":" + pname
+  return v
+
+
 def _minsize(mjm, g):
   t = int(mjm.geom_type[g])
   if t in (0, 1):
@@ -210,8 +219,10 @@ def compare_world(rec, case, mjm, qpos, got, w, rng):
         elif dmin > -2e-3:
           rec.count("pair_borderline")
           continue
+        w1, w2 = int(mjm.body_weldid[mjm.geom_bodyid[g1]]), int(mjm.body_weldid[mjm.geom_bodyid[g2]])
+        both_static = pid < 0 and (w1 == 0 or mjm.body_mocapid[w1] >= 0) and (w2 == 0 or mjm.body_mocapid[w2] >= 0)
         rec.viol(
-          f"spurious-pair:{'explicit-pair' if pid >= 0 else pname}:{band(dmin, margin, gap)}",
+          "spurious-pair:both-static" if both_static else f"spurious-pair:{'explicit-pair' if pid >= 0 else pname}:{band(dmin, margin, gap)}",
           f"MJWarp reports {len(ib)} contact(s), MuJoCo none; mjwarp dist={dmin:.6g} mj_geomDistance={dref} margin={margin:.4g} gap={gap:.4g} {ctx}",
           dist=got["dist"][ib], pos=got["pos"][ib],
         )  # fmt: skip
@@ -266,14 +277,13 @@ def compare_world(rec, case, mjm, qpos, got, w, rng):
       rec.count("unjudged:deep_penetration")
       continue
     cls = num
-    vd = cmp.judge(rec, f"dist[{cls}]", dgot, dref, allow[0], noise_d * C_NOISE_SCALE, ctx=ctx)
-    nviol_before = len(rec.violations)
+    vd = _judge(rec, f"dist[{cls}]", pname, dgot, dref, allow[0], noise_d * C_NOISE_SCALE, ctx)
     grazing = abs(dref) < 2e-6 and num == "ccd"
     vn = "ok"
     if grazing:
       rec.count("unjudged:grazing_normal")
     else:
-      vn = cmp.judge(rec, f"normal[{cls}]", ngot, nref, allow[2], noise_n * C_NOISE_SCALE, sig_prefix="", ctx=ctx)
+      vn = _judge(rec, f"normal[{cls}]", pname, ngot, nref, allow[2], noise_n * C_NOISE_SCALE, ctx)
     if (vd == "viol" or vn == "viol") and t1 != "plane":
       # Arbitration with float64 support functions: the signed distance of two convex shapes is the maximum over unit
       # directions n of gap(n) = min_{p2} n.p2 - max_{p1} n.p1. MJWarp's answer stands if its dist is the gap along its
@@ -314,10 +324,10 @@ def compare_world(rec, case, mjm, qpos, got, w, rng):
         nfr = max(nfr, float(np.abs(p["frame"][ip[j]] - ref["frame"][ia[i]]).max()))
     for i, j in enumerate(order):
       ai, bj = ia[i], ib[j]
-      cmp.judge(rec, f"pos[{cls}]", got["pos"][bj], ref["pos"][ai], allow[1], npos * C_NOISE_SCALE, ctx=ctx)
-      cmp.judge(rec, f"dist_all[{cls}]", got["dist"][bj], ref["dist"][ai], allow[0], ndist * C_NOISE_SCALE, ctx=ctx)
+      _judge(rec, f"pos[{cls}]", pname, got["pos"][bj], ref["pos"][ai], allow[1], npos * C_NOISE_SCALE, ctx)
+      _judge(rec, f"dist_all[{cls}]", pname, got["dist"][bj], ref["dist"][ai], allow[0], ndist * C_NOISE_SCALE, ctx)
       if not (abs(float(ref["dist"][ai])) < 2e-6 and num == "ccd"):
-        v = cmp.judge(rec, f"normal_all[{cls}]", got["frame"][bj][:3], ref["frame"][ai][:3], allow[2], nfr * C_NOISE_SCALE, ctx=ctx)
+        v = _judge(rec, f"normal_all[{cls}]", pname, got["frame"][bj][:3], ref["frame"][ai][:3], allow[2], nfr * C_NOISE_SCALE, ctx)
         if v == "ok":
           cmp.judge(rec, f"tangents:{pname}", got["frame"][bj][3:], ref["frame"][ai][3:], allow[2], nfr * C_NOISE_SCALE, ctx=ctx)
     rec.cover("strict_matched:" + pname, len(ia))
